@@ -1,5 +1,5 @@
 """Decoding front-end rules: R-DUP, R-SETAVAIL, R-RS-THRESHOLD, R-COMPLETE, R-FINISH-TRUTH, R-RETSET."""
-from .ir import Terms, strip_casts, const_of, atoms_at, has_atom, show, ret_sources, guards_at, returned_constants, \
+from .ir import norm_atom, Terms, strip_casts, const_of, atoms_at, has_atom, show, ret_sources, guards_at, returned_constants, \
     loop_range, stores_in_loop, calls_in_loop, blocks_reaching, NEG
 from .effects import effects, addr_root
 
@@ -284,6 +284,36 @@ def r_setavail(ctx, prog, codecs, need_order=False):
                 ok = args[0] == ('param', 0) and args[1] == tab_i and args[2] == iv
                 atoms = atoms_at(f, tt, c.block)
                 ok = ok and has_atom(atoms, 'ne', tab_i, ('const', 0))
+                # ... and nothing else decides whether an entry is registered (no entry is skipped on other grounds)
+                hdr_atoms = [norm_atom(a) for a in atoms_at(f, tt, lp.header)]
+                extra = []
+                for a in atoms:
+                    a = norm_atom(a)
+                    if a in hdr_atoms or a[0] != 'cmp':
+                        continue
+                    if a[2] == tab_i or a[3] == tab_i:
+                        continue
+                    if _mentions(a, iv) and (a[2] == nterm or a[3] == nterm or _mentions(a, lr.bound)) and a[1] in ('ult', 'ule', 'ugt', 'uge', 'slt', 'sle', 'sgt', 'sge', 'ne'):
+                        continue        # the loop's own bound
+                    extra.append(a)
+                # the same as a path condition (a skip written `if (A && B) continue;` leaves no dominating atom): from the
+                # "entry is not NULL" edge every path to the next iteration passes the registration
+                from .ir import out_edges as _oe, cond_atoms as _ca
+                for b2 in f.blocks:
+                    if b2.id not in lp.blocks:
+                        continue
+                    for s3, lab3 in _oe(b2):
+                        if lab3 is None or lab3[0] != 'br' or s3.id not in lp.blocks:
+                            continue
+                        if any(norm_atom(a3) == ('cmp', 'ne', tab_i, ('const', 0)) for a3 in _ca(tt, lab3[1], lab3[2])):
+                            rem3 = [(c.block.id, x.id) for x in c.block.succs]
+                            r3 = f.reachable(s3, removed=rem3, stop=[lp.header])
+                            if s3.id != c.block.id and any(l3.id in r3 for l3 in lp.latches):
+                                extra.append(('cmp', 'path', ('const', 0), ('const', 0)))
+                ctx.instance(R, not extra, c, key + ':only-null-skipped',
+                             '%s skips table entries on a condition other than "entry is NULL" (%s): a received symbol is not handed to '
+                             'the decoder, so the outcome depends on the submission API' %
+                             (key, '; '.join(('a path from the non-NULL test to the next iteration bypasses the registration' if a[1] == 'path' else '%s %s %s' % (show(a[2])[:40], a[1], show(a[3])[:30])) for a in extra)))
             ctx.instance(R, ok, per[0] if per else f, key + ':register',
                          '%s must hand every non-NULL tab[i] to the per-symbol decoding routine as (cb, tab[i], i); it %s' %
                          (key, 'does not call it' if not per else 'calls it with other arguments or unguarded'))
@@ -295,6 +325,14 @@ def r_setavail(ctx, prog, codecs, need_order=False):
                              (key, show(tt.term(s.ops[0]))))
         rc = returned_constants(prog, f)
         ctx.instance(R, rc == set([OK]), f, key + ':ret', '%s may return %s; on conforming use it returns only OF_STATUS_OK' % (key, sorted(map(str, rc))))
+
+
+def _mentions(a, t):
+    def walk(x):
+        if x == t:
+            return True
+        return isinstance(x, tuple) and any(walk(y) for y in x[1:] if isinstance(y, tuple))
+    return walk(a)
 
 
 def _setavail_multi(ctx, prog, R, fam, f, tt, loops, need_order, eff):
@@ -656,6 +694,25 @@ def error_free_reach(prog, fn):
             if edge_is_error(prog, fn, tt, b, lab):
                 removed.append((b.id, s2.id))
     r = fn.reachable(fn.entry, removed=removed)
+    # E5: a test of a status / flag kept in a local (`st = helper(...); if (st != OK) goto error` once the helper is expanded in
+    # place) is an error edge when the tested value can only arrive along error edges already removed.  Fixpoint.
+    from .ir import phi_atom_impossible, cond_atoms
+    changed = True
+    while changed:
+        changed = False
+        rem = set(removed)
+        for b in fn.blocks:
+            if b.id not in r:
+                continue
+            for s2, lab in out_edges(b):
+                if lab is None or lab[0] != 'br' or (b.id, s2.id) in rem:
+                    continue
+                if any(phi_atom_impossible(fn, tt, a, rem, r) for a in cond_atoms(tt, lab[1], lab[2])):
+                    removed.append((b.id, s2.id))
+                    rem.add((b.id, s2.id))
+                    changed = True
+        if changed:
+            r = fn.reachable(fn.entry, removed=removed)
     fn.__dict__['_errfree'] = (r, removed)
     return r, removed
 
